@@ -56,7 +56,7 @@ def draw_config(rng: random.Random, **over):
         'consumer_chunk': rng.choice([0, 0, 0, 3, 64, 512]),
         'provider_codings': rng.choice([None, None, [], ['gzip'], ['x-lz4'], ['gzip', 'x-lz4']]),
         'consumer_codings': rng.choice([None, None, [], ['gzip'], ['x-lz4'], ['x-lz4', 'gzip']]),
-        'frag_max': rng.choice([None, None, None, 1, 7, 100, 4000]),
+        'frag_max': rng.choice([None, None, None, 13, 100, 4000]),
         'latency': rng.choice([0.0, 0.0, 0.001, 0.02]),
         'max_subscription_duration': rng.choice([15, 15, 7, 30]),
         'periodic': rng.choice([None, None, None, 0.5, 2.0]),
